@@ -426,6 +426,53 @@ def rule_i(R, ctx, rid="C16.i"):
     R.floor(rid, "attribute-set operations", n, 2)
 
 
+def rule_j(R, ctx, rid="C16.j"):
+    Y = ctx.yrs
+    R.rule(rid, "R-SIB half-open discipline (belief rule, 48 of 48 comparisons on the pinned tree): ranges are [start, end); in the "
+                "interval algorithms of yrs/src/ids.rs (insert_with, push_coalesced, remove, merge, exclude, intersect, find_start, "
+                "contains_clock) every comparison that reads a range bound compares bounds, cursors and parameters as they are — no "
+                "operand is `bound + c` or `bound - c`. Adjacency is `left.end >= right.start`, disjointness `left.end < right.start`, "
+                "emptiness `start >= end`: a comparison shifted by one coalesces ranges across a one-id gap (ids that were never "
+                "inserted become members) or fails to coalesce touching ones (non-canonical result)")
+
+    def bound_leaf(k):
+        return isinstance(k, tuple) and k and k[0] == "proj" and k[2] and re.search(r"Range\.(start|end)$", str(k[2][-1])) is not None
+
+    def has_bound(k):
+        if bound_leaf(k):
+            return True
+        return isinstance(k, tuple) and any(has_bound(x) for x in k if isinstance(x, tuple))
+
+    def shifted(k):
+        if isinstance(k, tuple) and k and k[0] in ("Add", "Sub") and len(k) == 3:
+            a, b = k[1], k[2]
+            if (has_bound(a) and isinstance(b, tuple) and b and b[0] == "k") or (has_bound(b) and isinstance(a, tuple) and a and a[0] == "k"):
+                return True
+        return False
+    n = 0
+    for p, fn in sorted(Y.fns.items()):
+        if fn.file != "yrs/src/ids.rs" or not fn.mir or "::test" in p:
+            continue
+        k_ = 0
+        for i, j, st in fn.stmts():
+            rv = st["rv"]
+            if rv.get("bin") not in ("Ge", "Gt", "Le", "Lt", "Eq", "Ne"):
+                continue
+            a, b = mir_vkey(fn, rv["a"]), mir_vkey(fn, rv["b"])
+            if not (has_bound(a) or has_bound(b)):
+                continue
+            n += 1
+            bad = shifted(a) or shifted(b)
+            site = "cmp:%s#%d" % (rv["bin"], k_)
+            k_ += 1
+            if bad:
+                R.ob(rid, fn, site, False, "a range bound is compared after being shifted by a constant: half-open ranges need no ±1 — "
+                                           "the decision is off by one id", "%s:%s" % (fn.file, st["line"]))
+            else:
+                R.ob(rid, fn, site, True, "raw bounds compared", "%s:%s" % (fn.file, st["line"]), nontrivial=False)
+    R.floor(rid, "comparisons that read a range bound in yrs/src/ids.rs", n, 44)
+
+
 def check(ctx, R):
     R.run("C16.a", rule_a, ctx)
     R.run("C16.b", rule_b, ctx)
@@ -435,6 +482,7 @@ def check(ctx, R):
     R.run("C16.f", rule_f, ctx)
     R.run("C16.h", rule_h, ctx)
     R.run("C16.i", rule_i, ctx)
+    R.run("C16.j", rule_j, ctx)
     from . import scans
     R.run("C16.g", lambda R, c: scans.loop_scans(R, c, "C16.g", ["yrs::ids::IdRanges::subset_of"]), ctx)
     from . import preds
